@@ -25,11 +25,12 @@ Local Open Scope nat_scope.
 
 Inductive evt := CE | IE.          (* connected_event, input_event *)
 
-(* which source text is modelled.  The pinned tree is `pinned`.
-   final_wakes_input    : __disconnect_final also does input_event.set()          (repairs 7.1-g)
+(* which source text is modelled.  The source as it stands is `repaired_all`; `pinned` is the
+   source before the two fix commits and is kept only to document what they repaired.
+   final_wakes_input    : __disconnect_final also does input_event.set()     (commit 748d97f)
    recheck_before_raise : receive() re-tests input_buffer (`if self.input_buffer: break`)
                           before it raises TimeoutError out of the connected wait and before it
-                          raises DisconnectedError                                 (repairs 7.1-j) *)
+                          raises DisconnectedError                            (commit fee3be8) *)
 Record variant := mkVariant { final_wakes_input : bool; recheck_before_raise : bool }.
 Definition pinned := mkVariant false false.
 Definition repaired := mkVariant true false.
